@@ -1,7 +1,6 @@
 //! Writers under injected sink faults.
-use arrow_array::builder::StringDictionaryBuilder;
 use arrow_array::types::Int32Type;
-use arrow_array::{ArrayRef, BooleanArray, Int32Array, RecordBatch, StringArray};
+use arrow_array::{ArrayRef, BooleanArray, DictionaryArray, Int32Array, RecordBatch, StringArray};
 use arrow_schema::{DataType, Field, Schema};
 use std::io::{self, Seek, SeekFrom, Write};
 use std::sync::Arc;
@@ -49,17 +48,13 @@ pub fn batches(dict: bool) -> (RecordBatch, RecordBatch) {
         fields.push(Field::new("d", DataType::Dictionary(Box::new(DataType::Int32), Box::new(DataType::Utf8)), true));
     }
     let schema = Arc::new(Schema::new(fields));
+    // one shared dictionary for both batches (the IPC file format does not allow dictionary replacement)
+    let values: ArrayRef = Arc::new(StringArray::from(vec!["k1", "k2", "k3"]));
     let mk = |i: Vec<Option<i32>>, s: Vec<Option<&str>>, b: Vec<Option<bool>>, d: Vec<Option<&str>>| {
         let mut cols: Vec<ArrayRef> = vec![Arc::new(Int32Array::from(i)), Arc::new(StringArray::from(s)), Arc::new(BooleanArray::from(b))];
         if dict {
-            let mut db = StringDictionaryBuilder::<Int32Type>::new();
-            for v in d {
-                match v {
-                    Some(x) => db.append_value(x),
-                    None => db.append_null(),
-                }
-            }
-            cols.push(Arc::new(db.finish()));
+            let keys = Int32Array::from(d.iter().map(|v| v.map(|x| ["k1", "k2", "k3"].iter().position(|k| *k == x).unwrap() as i32)).collect::<Vec<_>>());
+            cols.push(Arc::new(DictionaryArray::<Int32Type>::try_new(keys, values.clone()).unwrap()));
         }
         RecordBatch::try_new(schema.clone(), cols).unwrap()
     };
@@ -203,7 +198,14 @@ fn parquet_arrow(r: &mut Runner, sink: GuardSink) {
     r.step("write1", || w.write(&b1));
     r.step("flush", || w.flush());
     r.step("write2", || w.write(&b2));
-    r.step("finish", || w.finish().map(|_| ()));
+    // finish() finalizes the file; into_inner()/close() are alternatives to it, not follow-ups
+    r.always("finish", || w.finish().map(|_| ()));
+}
+fn parquet_arrow_into_inner(r: &mut Runner, sink: GuardSink) {
+    let (b1, b2) = batches(false);
+    let Some(mut w) = r.step("new", || parquet::arrow::ArrowWriter::try_new(sink, b1.schema(), Some(pq_props()))) else { return };
+    r.step("write1", || w.write(&b1));
+    r.step("write2", || w.write(&b2));
     r.always("into_inner", move || w.into_inner().map(|_| ()));
 }
 fn parquet_arrow_close(r: &mut Runner, sink: GuardSink) {
@@ -243,8 +245,7 @@ fn parquet_serialized(r: &mut Runner, sink: GuardSink) {
         .unwrap_or_else(|| ok = false);
         let _ = (name.1, ok);
     }
-    r.step("finish", || w.finish().map(|_| ()));
-    r.always("into_inner", move || w.into_inner().map(|_| ()));
+    r.always("close", move || w.close().map(|_| ()));
 }
 
 fn avro_ocf(r: &mut Runner, sink: GuardSink) {
@@ -327,6 +328,7 @@ pub fn cases() -> Vec<WriterCase> {
         WriterCase { name: "ipc-stream-writer-buffered", deterministic: true, run: ipc_stream_buffered },
         WriterCase { name: "parquet-arrow-writer", deterministic: true, run: parquet_arrow },
         WriterCase { name: "parquet-arrow-writer-close", deterministic: true, run: parquet_arrow_close },
+        WriterCase { name: "parquet-arrow-writer-into-inner", deterministic: true, run: parquet_arrow_into_inner },
         WriterCase { name: "parquet-serialized-file-writer", deterministic: true, run: parquet_serialized },
         WriterCase { name: "parquet-async-arrow-writer", deterministic: true, run: parquet_async },
         WriterCase { name: "avro-ocf-writer", deterministic: false, run: avro_ocf },
